@@ -38,7 +38,8 @@ type Case struct {
 
 // rtInfo is what the round trip learnt about an accepted statement (for evidence only).
 type rtInfo struct {
-	accepted bool
+	parsePanic string
+	accepted   bool
 	kind     string
 	m        measure
 }
@@ -113,25 +114,74 @@ func roundTrip(pg bool, t1 sqlparser.Statement) (kind, path, msg string, c1 *cn,
 
 type miniNode struct {
 	typ, feat, text string
+	size            int    // length of the node's own printed text
+	orig            *cn    // canonical form of the node as it stands in the statement
+	slot            string // where the node sits in the mini statement
 }
 
-func identFeatures(val string, pg bool) string {
+// canonAt extracts the canonical form of the node at slot from a parsed mini statement.
+func canonAt(w *walker, st sqlparser.Statement, slot string) *cn {
+	sel, ok := st.(*sqlparser.Select)
+	if !ok {
+		return nil
+	}
+	first := func() *sqlparser.AliasedExpr {
+		if len(sel.SelectExprs) != 1 {
+			return nil
+		}
+		ae, _ := sel.SelectExprs[0].(*sqlparser.AliasedExpr)
+		return ae
+	}
+	switch slot {
+	case "expr":
+		if ae := first(); ae != nil {
+			return w.expr(ae.Expr)
+		}
+	case "alias":
+		if ae := first(); ae != nil {
+			return n("Ident", w.colIdent(ae.As))
+		}
+	case "convert-type":
+		if ae := first(); ae != nil {
+			if ce, ok := ae.Expr.(*sqlparser.ConvertExpr); ok {
+				return w.convertType(ce.Type)
+			}
+		}
+	case "table-ident", "table-name":
+		if len(sel.From) == 1 {
+			if at, ok := sel.From[0].(*sqlparser.AliasedTableExpr); ok {
+				if tn, ok := at.Expr.(sqlparser.TableName); ok {
+					if slot == "table-ident" {
+						return n("Ident", w.tableIdent(tn.Name))
+					}
+					return w.tableName(tn)
+				}
+			}
+		}
+	case "order":
+		return w.orderBy(sel.OrderBy)
+	case "limit":
+		return w.limit(sel.Limit)
+	}
+	return nil
+}
+
+// identFeatures names generic properties of an identifier that matter for printing it.
+// quote is the quote character the identifier was written in (0: none, or MySQL back-quotes).
+func identFeatures(val string, quote byte, pg bool) string {
 	var f []string
-	q := "`"
-	if pg {
-		q = `"`
+	own := quote
+	if own == 0 {
+		own = '`'
+		if pg {
+			own = '"'
+		}
 	}
-	if strings.Contains(val, q) {
-		f = append(f, "own-quote")
+	if strings.IndexByte(val, own) >= 0 || strings.Contains(val, `\`) {
+		return "[needs-escaping]" // holds its own quote character or a backslash
 	}
-	if strings.ContainsAny(val, "'\"`") && !strings.Contains(val, q) {
-		f = append(f, "other-quote")
-	}
-	if strings.ContainsAny(val, `\`) {
-		f = append(f, "backslash")
-	}
-	if val != strings.ToLower(val) {
-		f = append(f, "upper")
+	if quote != 0 && val != strings.ToLower(val) {
+		f = append(f, "quoted-upper")
 	}
 	if len(f) == 0 {
 		return ""
@@ -143,12 +193,6 @@ func identFeatures(val string, pg bool) string {
 func miniStatements(pg bool, st sqlparser.Statement) []miniNode {
 	var out []miniNode
 	seen := map[string]bool{}
-	add := func(typ, feat, text string) {
-		if !seen[typ+text] {
-			seen[typ+text] = true
-			out = append(out, miniNode{typ, feat, text})
-		}
-	}
 	safe := func(n sqlparser.SQLNode) (s string) {
 		defer func() {
 			if recover() != nil {
@@ -157,51 +201,77 @@ func miniStatements(pg bool, st sqlparser.Statement) []miniNode {
 		}()
 		return sqlparser.String(n)
 	}
-	_ = sqlparser.Walk(func(node sqlparser.SQLNode) (bool, error) {
+	// add registers node printed between prefix and suffix
+	add := func(typ, feat, prefix string, node sqlparser.SQLNode, suffix, slot string, orig *cn) {
+		body := safe(node)
+		text := prefix + body + suffix
+		key := typ + text + "\x00" + orig.String()
+		if orig != nil && !seen[key] {
+			seen[key] = true
+			out = append(out, miniNode{typ, feat, text, len(body), orig, slot})
+		}
+	}
+	w := func() *walker { return &walker{pg: pg} }
+	var visit func(node sqlparser.SQLNode) (bool, error)
+	visit = func(node sqlparser.SQLNode) (bool, error) {
 		if node == nil {
 			return true, nil
 		}
 		if v := reflect.ValueOf(node); v.Kind() == reflect.Ptr && v.IsNil() {
 			return true, nil
 		}
+		// parts of the tree that acra's own Walk does not descend into
+		switch x := node.(type) {
+		case *sqlparser.Union:
+			_ = sqlparser.Walk(visit, x.OrderBy, x.Limit)
+		case *sqlparser.Insert:
+			_ = sqlparser.Walk(visit, x.Partitions, x.Returning)
+		case *sqlparser.Update:
+			_ = sqlparser.Walk(visit, x.From, x.Returning)
+		case *sqlparser.Delete:
+			_ = sqlparser.Walk(visit, x.Targets, x.Partitions, x.Returning)
+		case *sqlparser.AliasedTableExpr:
+			_ = sqlparser.Walk(visit, x.Partitions)
+		}
 		typ := strings.TrimPrefix(strings.TrimPrefix(fmt.Sprintf("%T", node), "*"), "sqlparser.")
 		switch x := node.(type) {
 		case sqlparser.ListArg, sqlparser.ValTuple, *sqlparser.StarExpr, sqlparser.Exprs:
 		case sqlparser.ColIdent:
 			if !x.IsEmpty() {
-				add(typ, identFeatures(x.String(), pg), "select 1 as "+safe(x)+" from dual")
+				add(typ, identFeatures(x.String(), privByte(reflect.ValueOf(x), "quote"), pg), "select 1 as ", x, " from dual", "alias", n("Ident", w().colIdent(x)))
 			}
 		case sqlparser.TableIdent:
 			if !x.IsEmpty() {
-				add(typ, identFeatures(reflect.ValueOf(x).FieldByName("v").String(), pg), "select 1 from "+safe(x))
+				add(typ, identFeatures(privString(reflect.ValueOf(x), "v"), privByte(reflect.ValueOf(x), "quote"), pg), "select 1 from ", x, "", "table-ident", n("Ident", w().tableIdent(x)))
 			}
 		case sqlparser.TableName:
 			if !x.IsEmpty() {
-				add(typ, "", "select 1 from "+safe(x))
+				add(typ, "", "select 1 from ", x, "", "table-name", w().tableName(x))
 			}
 		case *sqlparser.ConvertType:
-			add(typ, "["+strings.ToLower(x.Type)+"]", "select convert(1, "+safe(x)+") from dual")
+			add(typ, "["+strings.ToLower(x.Type)+"]", "select convert(1, ", x, ") from dual", "convert-type", w().convertType(x))
 		case *sqlparser.SQLVal:
 			feat := "[" + valTypeNames[x.Type]
 			if len(x.CastType) > 0 {
 				feat += ",cast"
 			}
-			add(typ, feat+"]", "select "+safe(x)+" from dual")
+			add(typ, feat+"]", "select ", x, " from dual", "expr", w().expr(x))
 		case *sqlparser.Order:
-			add(typ, "", "select 1 from dual order by "+safe(x))
+			add(typ, "", "select 1 from dual order by ", x, "", "order", w().orderBy(sqlparser.OrderBy{x}))
 		case *sqlparser.Limit:
-			add(typ, "", "select 1 from dual"+safe(x))
+			add(typ, "", "select 1 from dual", x, "", "limit", w().limit(x))
 		case sqlparser.Expr:
-			add(typ, "", "select "+safe(x)+" from dual")
+			add(typ, "", "select ", x, " from dual", "expr", w().expr(x))
 		}
 		return true, nil
-	}, st)
+	}
+	_ = sqlparser.Walk(visit, st)
 	return out
 }
 
 // culprit finds the smallest sub-node whose own round trip fails, and describes it.
 func culprit(pg bool, st sqlparser.Statement) string {
-	best := ""
+	best, bestFeat := "", false
 	bestLen := 1 << 30
 	for _, mn := range miniStatements(pg, st) {
 		var vs hx.Vs
@@ -215,20 +285,33 @@ func culprit(pg bool, st sqlparser.Statement) string {
 		case !ok:
 			continue
 		default:
-			kind, path, _, _, _ = roundTrip(pg, t)
+			got := canonAt(&walker{pg: pg}, t, mn.slot)
+			if got == nil {
+				kind, path = "tree-differs", "/"+mn.orig.K+".lost"
+			} else if p, _, d := diff(mn.orig, got, ""); d {
+				kind, path = "tree-differs", p
+			}
 		}
-		if kind == "" || kind == "harness-walker" {
+		if kind == "" {
 			continue
 		}
-		if len(mn.text) < bestLen {
-			bestLen = len(mn.text)
+		// smallest node wins; on a tie one with named features, then the later (deeper) one
+		if mn.size < bestLen || (mn.size == bestLen && (mn.feat != "" || !bestFeat)) {
+			bestLen, bestFeat = mn.size, mn.feat != ""
 			best = mn.typ + mn.feat
-			if path != "" {
+			if path != "" && mn.feat == "" {
 				best += "@" + tail(path)
 			}
 		}
 	}
 	return best
+}
+
+func culpritOr(pg bool, st sqlparser.Statement, fallback string) string {
+	if who := culprit(pg, st); who != "" {
+		return who
+	}
+	return fallback
 }
 
 func tail(path string) string {
@@ -243,8 +326,15 @@ func tail(path string) string {
 func CheckRoundTrip(c Case) (vs hx.Vs, info rtInfo) {
 	sqlgen.SetDialect(c.Dialect)
 	pg := c.Dialect == sqlgen.PostgreSQL
-	t1, ok, _ := parseDML(&vs, "parse", c.SQL)
-	if len(vs) > 0 || !ok {
+	var pvs hx.Vs
+	t1, ok, _ := parseDML(&pvs, "parse", c.SQL)
+	if len(pvs) > 0 {
+		// A parser crash on the received text is outside this property (its domain is statements the
+		// parser accepts); it belongs to C14 (no input can crash a handler). Counted, not reported here.
+		info.parsePanic = pvs[0].Sig
+		return vs, info
+	}
+	if !ok {
 		return vs, info
 	}
 	info.accepted = true
@@ -324,6 +414,10 @@ func textClasses(s string) []string {
 
 func classes(c Case, info rtInfo) []string {
 	cl := []string{"dialect:" + c.Dialect}
+	if info.parsePanic != "" {
+		notePanic(info.parsePanic, c)
+		return append(cl, "parser-panicked-on-input")
+	}
 	if !info.accepted {
 		return append(cl, "rejected-or-not-dml")
 	}
@@ -335,6 +429,15 @@ func classes(c Case, info rtInfo) []string {
 		cl = append(cl, "op:"+a)
 	}
 	return append(cl, textClasses(c.SQL)...)
+}
+
+var notedPanics = map[string]bool{}
+
+func notePanic(sig string, c Case) {
+	if !notedPanics[sig] {
+		notedPanics[sig] = true
+		R.Note("out of domain (see C14): the parser panicked on input %q in the %s dialect: %s", c.SQL, c.Dialect, sig)
+	}
 }
 
 func genDialect(t *rapid.T) string { return rapid.SampledFrom(sqlgen.Dialects).Draw(t, "dialect") }
@@ -377,6 +480,9 @@ func TestCorpus(t *testing.T) {
 		for _, s := range sqlgen.Corpus() {
 			c := Case{Dialect: d, SQL: s, Src: "corpus"}
 			vs, info := CheckRoundTrip(c)
+			if info.parsePanic != "" {
+				notePanic(info.parsePanic, c)
+			}
 			if !info.accepted && len(vs) == 0 {
 				R.Class("TestCorpus", "skipped-not-dml-or-rejected:"+d)
 				continue
@@ -421,6 +527,18 @@ func FuzzParsePrintParse(f *testing.F) {
 	})
 }
 
+// FuzzGrammar lets the native fuzzer drive the grammar generator (the input is rapid's bit stream).
+func FuzzGrammar(f *testing.F) {
+	f.Add([]byte{0})
+	f.Add([]byte("select a, b from t where a = 1 order by b limit 3"))
+	f.Fuzz(rapid.MakeFuzz(func(rt *rapid.T) {
+		c := Case{Dialect: genDialect(rt), Src: "fuzz-grammar"}
+		c.SQL = sqlgen.Statement(rt, sqlgen.Opts{Dialect: c.Dialect, MaxDepth: 4})
+		vs, _ := CheckRoundTrip(c)
+		R.Report(rt, "FuzzGrammar", c, vs)
+	}))
+}
+
 func TestReplay(t *testing.T) {
 	rt := func(raw json.RawMessage) hx.Vs {
 		var c Case
@@ -435,12 +553,20 @@ func TestReplay(t *testing.T) {
 		"TestSplice":          rt,
 		"TestCorpus":          rt,
 		"FuzzParsePrintParse": rt,
+		"FuzzGrammar":         rt,
 		"TestPrecedence": func(raw json.RawMessage) hx.Vs {
 			var c PrecCase
 			if err := json.Unmarshal(raw, &c); err != nil {
 				return hx.Vs{{Sig: "harness:decode", Msg: err.Error()}}
 			}
 			return CheckPrecedence(c)
+		},
+		"TestLiteral": func(raw json.RawMessage) hx.Vs {
+			var c LitCase
+			if err := json.Unmarshal(raw, &c); err != nil {
+				return hx.Vs{{Sig: "harness:decode", Msg: err.Error()}}
+			}
+			return CheckLiteral(c)
 		},
 		"TestSubstitution": func(raw json.RawMessage) hx.Vs {
 			var c SubCase
